@@ -5,6 +5,7 @@ from ..common import PASSES, cfg_str
 
 PROP = "C09"
 LEVEL = "exploration"
+BLOCK = 32   # neighbouring configurations share a worker process
 RULE = ("all ten classes, grid + seeded random; multi-pass classes driven "
         "for 4 passes, single-pass classes probed with 3 further next() "
         "calls; is_exhausted / is_running read before the first next(), "
